@@ -72,3 +72,7 @@ package fractal
 //@   assert-at store LocalSuperior.latestTask cleared-only-for-the-removed-task: value == nil && lastresult("ID") == id
 //@ func (*LocalSuperior).Subscribe
 //@   assert-at call Send late-subscriber-gets-the-latest-broadcast-task: arg2 == lastresult("ID") && arg3 != nil
+
+// the relay remembers only quality tasks for late subscribers (a targeted proof or signature request is never replayed)
+//@ func (*RemoteSuperior).requestProcessor
+//@   assert-at store RemoteSuperior.latestTask only-a-quality-task-is-kept-for-late-subscribers: lastresult("MsgType") == protocol.MsgTypeRequestQualities && value == msg
